@@ -708,6 +708,27 @@ pub mod iotap {
             v.push(Event { path: path.to_path_buf(), kind });
         }
     }
+
+    /// `DBFile::write` with the tap on: the write itself, then its report.
+    pub(crate) fn write(f: &mut std::fs::File, path: &Path, buf: &[u8]) -> std::io::Result<usize> {
+        use std::io::{Seek, Write};
+        let offset = f.stream_position()?;
+        let n = f.write(buf)?;
+        record(path, Kind::Write(offset, buf[..n].to_vec()));
+        Ok(n)
+    }
+
+    pub(crate) fn set_len(f: &std::fs::File, path: &Path, len: u64) -> std::io::Result<()> {
+        f.set_len(len)?;
+        record(path, Kind::SetLen(len));
+        Ok(())
+    }
+
+    pub(crate) fn sync_all(f: &std::fs::File, path: &Path) -> std::io::Result<()> {
+        f.sync_all()?;
+        record(path, Kind::Sync);
+        Ok(())
+    }
 }
 
 /// Yield injection: the harness installs a seeded decision function; lock and latch acquisitions call
@@ -792,11 +813,39 @@ pub mod locktap {
         exclusive: bool,
     }
 
-    impl Held {
-        pub(crate) fn page(page: u64, exclusive: bool) -> Self {
-            record(true, page + 1, exclusive);
-            Held { object: page + 1, exclusive }
-        }
+    // Page latches are identified by the address of their lock; every frame is named (address -> page id)
+    // when it enters the cache, which happens before it can be latched.
+    static NAMES: Mutex<Option<std::collections::HashMap<usize, u64>>> = Mutex::new(None);
+
+    pub(crate) fn name_frame(frame: &crate::multithreading::frames::MemFrame) {
+        use crate::multithreading::frames::MemFrame;
+        let addr = match frame {
+            MemFrame::Btree(f) => std::sync::Arc::as_ptr(&f.inner) as *const () as usize,
+            MemFrame::Overflow(f) => std::sync::Arc::as_ptr(&f.inner) as *const () as usize,
+            MemFrame::Zero(f) => std::sync::Arc::as_ptr(&f.inner) as *const () as usize,
+        };
+        let page = u64::from(frame.page_number());
+        NAMES.lock().unwrap_or_else(|e| e.into_inner()).get_or_insert_with(Default::default).insert(addr, page);
+    }
+
+    fn page_of(addr: usize) -> u64 {
+        NAMES
+            .lock()
+            .unwrap_or_else(|e| e.into_inner())
+            .as_ref()
+            .and_then(|m| m.get(&addr).copied())
+            .map(|p| p + 1)
+            .unwrap_or(1_000_000_000 + addr as u64) // a frame that never went through the cache
+    }
+
+    /// called right before a latch is requested (the request is what the discipline speaks about)
+    pub(crate) fn latch_acquire(addr: usize, exclusive: bool) {
+        super::yield_point();
+        record(true, page_of(addr), exclusive);
+    }
+
+    pub(crate) fn latch_release(addr: usize) {
+        record(false, page_of(addr), false);
     }
 
     impl Drop for Held {
